@@ -959,6 +959,9 @@ cdef class CPUDomainManager(DomainManagerBase):
 
         for pa_wrapper in pa_wrappers:
             h = pa_wrapper.h
+            if h.length == 0:
+                # Empty arrays have no smoothing length (min/max would be 0).
+                continue
             h.update_min_max()
 
             _hmax = h.maximum
@@ -1533,6 +1536,11 @@ cdef class NNPS(NNPSBase):
             y = pa_wrapper.y
             z = pa_wrapper.z
 
+            if x.length == 0:
+                # An empty array has no extent; its minimum/maximum are a
+                # meaningless 0 that must not enter the bounds.
+                continue
+
             # find min and max of variables
             x.update_min_max()
             y.update_min_max()
@@ -1545,6 +1553,11 @@ cdef class NNPS(NNPSBase):
             xmin = fmin(x.minimum, xmin)
             ymin = fmin(y.minimum, ymin)
             zmin = fmin(z.minimum, zmin)
+
+        if xmax < xmin:
+            # No particles at all.
+            xmin = ymin = zmin = 0.0
+            xmax = ymax = zmax = 0.0
 
         # Add a small offset to the limits.
         lx, ly, lz = xmax - xmin, ymax - ymin, zmax - zmin
